@@ -384,7 +384,10 @@ class FQA:
         Mx, My = em[1:-1] / np.linalg.norm(em[1:-1])                # (eq. 37)
         c_psi, s_psi = np.array([[Mx, My], [-My, Mx]])@N            # (eq. 39)
         c_psi = np.clip(c_psi, -1.0, 1.0)
-        s_psi_2 = np.sign(s_psi)*np.sqrt((1.0-c_psi)/2.0)
+        sign_s_psi = np.sign(s_psi)
+        if c_psi == -1.0 and s_psi == 0.0:      # Half-turn in azimuth: either sign describes it
+            sign_s_psi = 1
+        s_psi_2 = sign_s_psi*np.sqrt((1.0-c_psi)/2.0)
         c_psi_2 = np.sqrt((1.0+c_psi)/2.0)
         q_a = Quaternion([c_psi_2, 0.0, 0.0, s_psi_2])              # (eq. 40)
         # Final Quaternion (eq. 41)
